@@ -716,7 +716,7 @@ Proof.
   eexists. split; [reflexivity|].
   assert (V : valid_fields (fields w) = true) by (rewrite <- in_range_fields; exact Hw).
   destruct (parse_datetime_text (fields w) o V Habs Hmin) as [P1 P2].
-  unfold iso_parse. rewrite P1, P2. rewrite trunc_fields_valid by exact V.
+  unfold iso_parse, fromiso_to_local. rewrite P1, P2. rewrite trunc_fields_valid by exact V.
   destruct (Z.ltb_spec (Z.abs o) 86400); [|lia]. cbn [andb].
   rewrite of_trunc_fields.
   assert (Hk : o * US_SEC = (o * 1000) * 1000) by (unfold US_SEC; lia).
@@ -767,7 +767,7 @@ Variable off_utc : Z -> Z.
 Theorem parse_total s :
   iso_parse off_utc s = None \/ exists w, iso_parse off_utc s = Some w /\ in_range w = true /\ w mod 1000 = 0.
 Proof.
-  unfold iso_parse. destruct (parse_date_form s) as [[[y m] d]|].
+  unfold iso_parse, fromiso_to_local. destruct (parse_date_form s) as [[[y m] d]|].
   - destruct (py_datetime (mkf y m d 0 0 0 0)) as [w| |] eqn:E; cbn [dres_opt]; auto.
     right. exists w. split; [reflexivity|]. apply py_datetime_ok in E. destruct E as [_ [E [_ R]]]. split; [exact R|].
     rewrite E. unfold of_fields. cbn [f_year f_month f_day f_hour f_minute f_second f_us]. unfold US_DAY, US_SEC. dm. lia.
@@ -787,7 +787,7 @@ Proof.
   intros Ry Rmo Rd Rh Rmi Rs Rus Ho Hm V.
   destruct (parse_datetime_text_gen f o) as [P1 P2]; auto.
   { repeat split; try lia; dm; lia. }
-  unfold iso_parse. rewrite P1, P2.
+  unfold iso_parse, fromiso_to_local. rewrite P1, P2.
   assert (V' : valid_fields (trunc_fields f) = false).
   { destruct (valid_fields (trunc_fields f)) eqn:E; [|reflexivity]. rewrite <- V. symmetry.
     apply valid_fields_iff in E. apply valid_fields_iff. unfold trunc_fields in E.
